@@ -633,11 +633,18 @@ fn brace_getgroup(s: &str, depth: i32) -> Option<(Vec<String>, String)> {
     None
 }
 
+/// How many words at the start of the line are `NAME=value` assignments:
+/// their values are data for the brace passes (`A={a,b}` assigns `{a,b}`).
+fn count_leading_assignments(tokens: &types::Tokens) -> usize {
+    tokens.iter().take_while(|x| x.0.is_empty() && tools::is_env(&x.1)).count()
+}
+
 fn expand_brace(tokens: &mut types::Tokens) {
     let mut idx: usize = 0;
     let mut buff = Vec::new();
+    let assignments = count_leading_assignments(tokens);
     for (sep, token) in tokens.iter() {
-        if !sep.is_empty() || !need_expand_brace(token) {
+        if !sep.is_empty() || !need_expand_brace(token) || idx < assignments {
             idx += 1;
             continue;
         }
@@ -673,8 +680,9 @@ fn expand_brace_range(tokens: &mut types::Tokens) {
 
     let mut idx: usize = 0;
     let mut buff: Vec<(usize, Vec<String>)> = Vec::new();
+    let assignments = count_leading_assignments(tokens);
     for (sep, token) in tokens.iter() {
-        if !sep.is_empty() || !re.is_match(token) {
+        if !sep.is_empty() || !re.is_match(token) || idx < assignments {
             idx += 1;
             continue;
         }
